@@ -150,16 +150,17 @@ ResetP == sel' = <<>> /\ done' = {} /\ old' = {} /\ ncalc' = 0 /\ ready' = {} /\
 (* run(restart=False): dump_results implies allow_restart; the directory is removed and re-created *)
 (* StartFreshL: the same with the initial K list given (trace validation adopts the list of the implementation after
    comparing it with InitList up to order and choice of representatives) *)
-StartFreshL(m, n_it, k0) ==
-  /\ pc = "idle" /\ ~m.restart /\ (m.dump => m.allow)
+(* aarg: the value of the argument allow_restart; the effective setting m.allow is  aarg or dump_results *)
+StartFreshL(m, n_it, k0, aarg) ==
+  /\ pc = "idle" /\ ~m.restart /\ m.allow = (aarg \/ m.dump)
   /\ kl' = k0 /\ facs' = Facs(k0)
   /\ IF m.allow THEN ffiles' = (0 :> Facs(k0)) /\ pick' = <<>> ELSE UNCHANGED <<ffiles, pick>>
   /\ mode' = m /\ nit' = n_it /\ start' = 0 /\ nkprev' = 0 /\ it' = 0
   /\ coef' = <<>> /\ resNone' = TRUE /\ rsum' = <<>> /\ rsNone' = TRUE
   /\ pc' = "process" /\ ResetP
-  /\ act' = [name |-> "StartFresh", mode |-> m, nit |-> n_it]
+  /\ act' = [name |-> "StartFresh", mode |-> m, nit |-> n_it, allowarg |-> aarg]
   /\ UNCHANGED <<saved, returned>>
-StartFresh(m, n_it) == StartFreshL(m, n_it, InitList(m.sym))
+StartFresh(m, n_it) == \E aarg \in BOOLEAN : StartFreshL(m, n_it, InitList(m.sym), aarg)
 
 (* read_factors(file_Klist_path, iter): the iteration whose factors file is used.
    iter >= 0: that file (it must exist).  iter < 0: counted from the latest iteration on disk (-1 = latest), clipped
